@@ -2,6 +2,7 @@
 # tools/collect_seed.sh <prop> <round-letter> <worktree> : copy a sub-agent's deliverables into seeded/<prop>-<letter>/ and drop the worktree
 P="$1"; R="$2"; WT="$3"; D=/verif/seeded/$P-$R
 mkdir -p $D
+[ -d "$WT" ] || { echo "worktree $WT is gone"; exit 9; }
 git -C $WT diff -- src > $D/patch.diff
 cp $WT/_seed/demo.py $D/demo.py; cp $WT/_seed/notes.md $D/notes.md
 python3 - "$P" "$R" <<'PY'
